@@ -18,6 +18,7 @@ fn base_gen() -> GenProfile {
         tiny: false,
         big_values: true,
         big_pool_pct: 6,
+        dense_pct: 0,
     }
 }
 
@@ -45,6 +46,7 @@ pub fn spec(id: &str) -> Option<CheckSpec> {
             g.w.remove_weak = 3;
             g.n_cfgs = 2;
             g.blob = BlobMode::Never;
+            g.dense_pct = 4;
             a.point = true;
             a.point_deep = true;
             a.absent_probes = true;
@@ -108,6 +110,7 @@ pub fn spec(id: &str) -> Option<CheckSpec> {
         }
         "C03" => {
             g.w.scan = 40;
+            g.dense_pct = 2;
             g.w.snap_open = 4;
             g.w.snap_release = 1;
             g.w.reopen = 1;
@@ -312,7 +315,7 @@ pub fn spec(id: &str) -> Option<CheckSpec> {
                 ops_quick: 100,
                 ops_thorough: 300,
                 nontrivial: |s| s.get("files.reclamation_checked_after_replacement") > 0,
-                rule: "histories on standard and blob trees with watermark schedules that periodically exceed all past version changes after releasing all snapshots. Safety after every op: every file named by the current version and by every live snapshot's version (paths recorded when it was opened) exists, as do `current` and v<id>. Reclamation whenever version_free_list_len()==0 and no snapshot is live, and right after every open: tables/, blobs/ and v* contain exactly what the current version names. Watermarks above `visible` (legal while nobody holds a view) are generated so that the version history really empties. Non-trivial = the reclamation clause was evaluated with an empty free list after version installs in this session that replaced files (merge, major, pull-down, drop_range that dropped tables, or clear). Distinct = hash of the case.",
+                rule: "histories on standard and blob trees with watermark schedules that periodically exceed all past version changes after releasing all snapshots. Safety after every op: every file named by the current version and by every live snapshot's version (paths recorded when it was opened) exists, as do `current` and v<id>. Reclamation whenever version_free_list_len()==0 and no snapshot is live, and right after every open: tables/, blobs/ and v* contain exactly what the current version names. Watermarks above `visible` (legal while nobody holds a view) are generated so that the version history really empties. A second and a third stage (both tiers; 160+320 histories quick, 1200+2400 thorough) take the directories left by every crash image of the C05 enumeration and by every failed operation of the C16 enumeration and demand that one reopen leaves no unreferenced table / blob / version file. Non-trivial = the reclamation clause was evaluated with an empty free list after version installs in this session that replaced files (merge, major, pull-down, drop_range that dropped tables, or clear). Distinct = hash of the case.",
                 assumptions: ASSUME_COMMON.to_vec(),
                 finale: None,
                 per_op: Some(|e, op| {
@@ -404,6 +407,7 @@ pub fn spec(id: &str) -> Option<CheckSpec> {
         "C11" => {
             g.n_cfgs = 3;
             g.blob = BlobMode::Either;
+            g.dense_pct = 6;
             g.w.snap_open = 4;
             g.w.snap_release = 2;
             g.w.ingest = 2;
